@@ -1084,3 +1084,200 @@ def c05_dir_search(rp, seed):
         if bad:
             return r2, msg
     return None
+
+
+# ---------------------------------------------------------------- C09 - C12 predictions
+def _pred_setup(rp):
+    name = rp["model"]
+    beta = num(rp.get("beta", enc(25 / 6)))
+    m = model_cls(name)(beta=beta)
+    teams = mk_game(name, rp["game"])
+    return name, beta, m, teams
+
+
+@checker("c12_closed")
+def c12_closed(rp):
+    from pyvc.specs import predict as PS
+    name, beta, m, teams = _pred_setup(rp)
+    X = PS.FloatX()
+    gm = [[(p.mu, p.sigma) for p in t] for t in teams]
+    op = rp["op"]
+    if op == "predict_win":
+        got, want = m.predict_win(teams), PS.win(gm, beta, X)
+    elif op == "predict_draw":
+        got, want = [m.predict_draw(teams)], [PS.draw(gm, beta, X)]
+    else:
+        got, want = [p for (_r, p) in m.predict_rank(teams)], PS.rank_probabilities(gm, beta, X)
+    if rp.get("clause") == "canary":
+        want = list(reversed(want)) if len(want) > 1 else [want[0] + 1e-3]
+    for i, (a, b) in enumerate(zip(got, want)):
+        if abs(a - b) > 1e-9:
+            return True, f"{name}.{op}: value {i} = {a!r}, closed form {b!r}"
+    return len(got) != len(want), f"{name}.{op} equals its closed form to 1e-9"
+
+
+def _rand_pred(rnd, sizes):
+    return [[[enc(rnd.uniform(0, 50)), enc(rnd.choice([0.0, 0.5, 3.0, 8.0]))] for _ in range(n)] for n in sizes]
+
+
+@searcher("c12_closed")
+def c12_closed_search(rp, seed):
+    rnd = random.Random(seed)
+    sizes = [len(x) for x in rp["game"]]
+    for _ in range(300):
+        r2 = dict(rp, game=_rand_pred(rnd, sizes))
+        try:
+            bad, msg = c12_closed(r2)
+        except Exception:  # noqa: BLE001
+            continue
+        if bad:
+            return r2, msg
+    return None
+
+
+@checker("c09_win")
+def c09_win(rp):
+    name, beta, m, teams = _pred_setup(rp)
+    n = len(teams)
+    p = m.predict_win(teams)
+    if rp.get("clause") == "canary":
+        return abs(sum(p) - 1.5) > 1e-9, f"sum = {sum(p)!r} (canary claimed 1.5)"
+    if len(p) != n:
+        return True, f"{name}.predict_win returned {len(p)} values for {n} teams"
+    if any(not (-1e-12 <= x <= 1 + 1e-12) for x in p) or abs(sum(p) - 1) > 1e-9:
+        return True, f"{name}.predict_win -> {p} (sum {sum(p)!r})"
+    # permutation equivariance (reverse) and identical teams
+    q = m.predict_win(list(reversed(mk_game(name, rp["game"]))))
+    if any(abs(a - b) > 1e-9 for a, b in zip(p, reversed(q))):
+        return True, f"{name}.predict_win not equivariant under reversing the teams: {p} vs {list(reversed(q))}"
+    for i in range(n):
+        for k in range(i + 1, n):
+            if rp["game"][i] == rp["game"][k] and abs(p[i] - p[k]) > 1e-9:
+                return True, f"identical teams {i},{k} get {p[i]!r} and {p[k]!r}"
+    if n == 2 and rp["game"][0] == rp["game"][1] and p != [0.5, 0.5]:
+        return True, f"two identical teams get {p}"
+    # monotonicity in one member's mu
+    g2 = mk_game(name, rp["game"])
+    g2[0][0].mu += num(rp.get("bump", enc(1.0)))
+    r = m.predict_win(g2)
+    if r[0] < p[0] - 1e-12 or any(r[k] > p[k] + 1e-12 for k in range(1, n)):
+        return True, f"raising a member's mu: {p} -> {r}"
+    return False, "predict_win clauses hold"
+
+
+@searcher("c09_win")
+def c09_win_search(rp, seed):
+    rnd = random.Random(seed)
+    sizes = [len(x) for x in rp["game"]]
+    for k in range(400):
+        gm = _rand_pred(rnd, sizes)
+        if k % 3 == 0 and len(sizes) > 1 and sizes[0] == sizes[-1]:
+            gm[-1] = gm[0]
+        r2 = dict(rp, game=gm, bump=enc(rnd.choice([0.0, 1e-3, 1.0, 30.0])))
+        try:
+            bad, msg = c09_win(r2)
+        except Exception:  # noqa: BLE001
+            continue
+        if bad:
+            return r2, msg
+    return None
+
+
+@checker("c10_draw")
+def c10_draw(rp):
+    name, beta, m, teams = _pred_setup(rp)
+    n = len(teams)
+    d = m.predict_draw(teams)
+    if rp.get("clause") == "canary":
+        return d < 0.9, f"draw = {d!r} (canary claimed >= 0.9)"
+    if not (-1e-12 <= d <= 1 + 1e-9):
+        return True, f"{name}.predict_draw -> {d!r}"
+    q = m.predict_draw(list(reversed(mk_game(name, rp["game"]))))
+    g3 = [list(reversed(t)) for t in mk_game(name, rp["game"])]
+    q3 = m.predict_draw(g3)
+    if abs(q - d) > 1e-9 or abs(q3 - d) > 1e-9:
+        return True, f"{name}.predict_draw depends on the order: {d!r}, teams reversed {q!r}, players reversed {q3!r}"
+    return False, "predict_draw clauses hold"
+
+
+@searcher("c10_draw")
+def c10_draw_search(rp, seed):
+    rnd = random.Random(seed)
+    sizes = [len(x) for x in rp["game"]]
+    for k in range(400):
+        r2 = dict(rp, game=_rand_pred(rnd, sizes))
+        try:
+            bad, msg = c10_draw(r2)
+        except Exception:  # noqa: BLE001
+            continue
+        if bad:
+            return r2, msg
+    return None
+
+
+@checker("c11_rank")
+def c11_rank(rp):
+    name, beta, m, teams = _pred_setup(rp)
+    n = len(teams)
+    out = m.predict_rank(teams)
+    if rp.get("clause") == "canary":
+        return [r for (r, _p) in out] != list(range(1, n + 1)), "ranks are not simply 1..n in input order"
+    if len(out) != n:
+        return True, f"{name}.predict_rank returned {len(out)} pairs for {n} teams"
+    rk = [r for (r, _p) in out]
+    pr = [p for (_r, p) in out]
+    if any(not (isinstance(r, int) and 1 <= r <= n) for r in rk) or any(not (-1e-12 <= p <= 1 + 1e-12) for p in pr):
+        return True, f"{name}.predict_rank -> {out}"
+    for a in range(n):
+        for b in range(n):
+            if (pr[a] > pr[b] and not rk[a] < rk[b]) or (pr[a] == pr[b] and rk[a] != rk[b]):
+                return True, f"{name}.predict_rank: teams {a},{b} have probabilities {pr[a]!r},{pr[b]!r} and ranks {rk[a]},{rk[b]}"
+    if rk[max(range(n), key=lambda k: pr[k])] != 1:
+        return True, f"most likely team does not have rank 1: {out}"
+    if n >= 3:
+        tot = sum(pr) + m.predict_draw(mk_game(name, rp["game"]))
+        if abs(tot - 1) > 1e-9:
+            return True, f"{name}: sum of rank probabilities + predict_draw = {tot!r}"
+    return False, "predict_rank clauses hold"
+
+
+@searcher("c11_rank")
+def c11_rank_search(rp, seed):
+    rnd = random.Random(seed)
+    sizes = [len(x) for x in rp["game"]]
+    for k in range(400):
+        gm = _rand_pred(rnd, sizes)
+        if k % 2 == 0 and len(sizes) > 1 and sizes[0] == sizes[-1]:
+            gm[-1] = gm[0]
+        r2 = dict(rp, game=gm)
+        try:
+            bad, msg = c11_rank(r2)
+        except Exception:  # noqa: BLE001
+            continue
+        if bad:
+            return r2, msg
+    return None
+
+
+@checker("c11_rankdata")
+def c11_rankdata(rp):
+    C = common()
+    v = [num(x) for x in rp["v"]]
+    got = C._rank_data(v)
+    want = [1 + sum(1 for y in v if y < x) for x in v]
+    if rp.get("clause") == "canary":
+        want = [1 + sum(1 for y in v if y <= x) - 1 for x in v]
+        want = list(range(1, len(v) + 1))
+    return got != want, f"_rank_data({v}) -> {got}, competition ranks {want}"
+
+
+@searcher("c11_rankdata")
+def c11_rankdata_search(rp, seed):
+    rnd = random.Random(seed)
+    n = len(rp["v"])
+    for _ in range(2000):
+        r2 = dict(rp, v=[enc(rnd.choice([0.1, 0.2, 0.2, 0.5, 0.7, 0.0])) for _ in range(n)])
+        bad, msg = c11_rankdata(r2)
+        if bad:
+            return r2, msg
+    return None
